@@ -825,7 +825,7 @@ class RandomEv:
         if k not in self.memo:
             if isinstance(shape, Real):
                 v = self._real(shape)
-                srt = self.memo.setdefault(('__sorted', name), self.sorted_lists and self.rng.random() < 0.75)
+                srt = self.memo.setdefault(('__sorted', name), self.sorted_lists and self.rng.random() < 0.5)
                 if srt and (name, j - 1) in self.memo:
                     prev = self.memo[(name, j - 1)]
                     pool = [c for c in self.memo.get('__pool', []) if c > prev]
@@ -834,7 +834,7 @@ class RandomEv:
                     else:
                         v = prev + (self.rng.uniform(0.05, 1.0) if self.rng.random() < 0.9 else 0.0)
                     self.memo.setdefault('__pool', []).append(v)
-                elif srt:
+                elif srt and self.rng.random() < 0.7:
                     v = self.rng.uniform(-2.0, 2.0) if getattr(shape, 'lo', None) is None else \
                         float(shape.lo) + self.rng.uniform(0.0, 2.0) + (0.01 if shape.lo_open else 0.0)
                     self.memo.setdefault('__pool', []).append(v)
